@@ -347,13 +347,14 @@ struct Subject {
 
   uint64_t base = Globals::kNoBaseAddress;        // the base address given to CodeHolder::init(), if any
 
-  Subject(gen::Target t, int kind, int handler_mode, uint64_t known_base = Globals::kNoBaseAddress) : target(t), emitter_kind(kind), base(known_base) {
+  Subject(gen::Target t, int kind, int handler_mode, uint64_t known_base = Globals::kNoBaseAddress, bool validate = true) : target(t), emitter_kind(kind), base(known_base) {
     SIM_CHECK(code.init(Environment(gen::arch_of(t)), known_base) == Error::kOk, "c14:setup", "init failed");
     (void)foreign.init(Environment(gen::arch_of(t)));
     if (t == gen::Target::kA64) e.reset(kind == 0 ? static_cast<BaseEmitter*>(new a64::Assembler()) : kind == 1 ? static_cast<BaseEmitter*>(new a64::Builder()) : static_cast<BaseEmitter*>(new a64::Compiler()));
     else e.reset(kind == 0 ? static_cast<BaseEmitter*>(new x86::Assembler()) : kind == 1 ? static_cast<BaseEmitter*>(new x86::Builder()) : static_cast<BaseEmitter*>(new x86::Compiler()));
     SIM_CHECK(code.attach(e.get()) == Error::kOk, "c14:setup", "attach failed");
-    e->add_diagnostic_options(DiagnosticOptions::kValidateAssembler | DiagnosticOptions::kValidateIntermediate);
+    // (AArch64 has no operand validator; without the option the a64 Assembler takes its fast path)
+    if (validate || t != gen::Target::kA64) e->add_diagnostic_options(DiagnosticOptions::kValidateAssembler | DiagnosticOptions::kValidateIntermediate);
     eh.throw_on_error = handler_mode == kHandlerThrowing;
     if (handler_mode != kHandlerNone) e->set_error_handler(&eh);
   }
@@ -426,8 +427,14 @@ CallResult perform(Subject& s, const gen::Program& prog, const Op& op, bool* mus
             else if (o.is_label()) sb.append_format("label(%u)", o.as<Label>().id()); else sb.append("none"); }
           sim::logf("a64 form #%zu '%s' -> %s", size_t(op.a[0]) % forms.size(), f.text.c_str(), sb.data());
         }
+        uint32_t form_inst_id = f.inst_id;
+        if ((op.a[3] & 16) && BaseInst::extract_arm_cond_code(f.inst_id) == arm::CondCode::kAL) {
+          // a condition code composed into the id of an instruction other than `b`
+          form_inst_id = BaseInst::compose_arm_inst_id(f.inst_id, arm::CondCode(2 + uint32_t(uint64_t(op.a[1]) % 14)));
+          if (BaseInst::extract_real_id(f.inst_id) != a64::Inst::kIdB) { *must_fail_out = true; s.last_must_fail_other = true; sim::count("c14.probe.a64_condition_code_on_non_branch"); }
+        }
         { const char* why = nullptr; if (a64_known_invalid(f.inst_id, ops, f.ops, f.op_count, &why)) { *must_fail_out = true; s.last_must_fail_other = true; sim::logf("  must fail: %s", why); sim::count("c14.probe.a64_constraint_violated"); } }
-        r.err = e.emit_op_array(InstId(f.inst_id), reinterpret_cast<const Operand*>(ops), f.op_count);
+        r.err = e.emit_op_array(InstId(form_inst_id), reinterpret_cast<const Operand*>(ops), f.op_count);
         if (getenv("SIM_C14_A64_STATS") && *must_fail_out && !invalid_label_ref) {
           if (r.err == Error::kOk && s.emitter_kind == 0) {
             const char* why = nullptr; a64_known_invalid(f.inst_id, ops, f.ops, f.op_count, &why);
@@ -591,7 +598,8 @@ CallResult perform(Subject& s, const gen::Program& prog, const Op& op, bool* mus
         x86::Gp good = is64 ? x86::Gp(x86::rbx) : x86::Gp(x86::ebx);
         Reg odd = Reg::from_type_and_id(gp_type, id);
         bool bad = false;
-        switch (uint64_t(op.a[1]) % 5) {
+        switch (uint64_t(op.a[1]) % 6) {
+          case 5: { x86::Mem m = x86::ptr(good, 8, 4); uint32_t seg = id & 7u; m.set_segment(seg); bad = seg == 7; /* es cs ss ds fs gs are 1..6 */ r.err = e.emit(x86::Inst::kIdMov, x86::eax, m); break; }
           case 0: { x86::Mem m = x86::ptr(good, 8, 4); m.set_base(odd); bad = id >= gp_count; r.err = e.emit(x86::Inst::kIdMov, x86::eax, m); break; }
           case 1: { x86::Mem m = x86::ptr(good, good, 1, 8, 4); m.set_index(odd, 1); bad = id >= gp_count || id == 4 /* esp/rsp cannot be an index */; r.err = e.emit(x86::Inst::kIdMov, x86::eax, m); break; }
           case 2: { bad = id == 0 || id >= 8; e.set_extra_reg(Reg::from_type_and_id(RegType::kMask, id)); r.err = e.emit(x86::Inst::kIdVaddps, x86::zmm(1), x86::zmm(2), x86::zmm(3)); break; }
@@ -700,7 +708,7 @@ void execute(const Plan& plan) {
   uint64_t failed_calls = 0;
   {
     uint64_t known_base = plan.get("known_base", 0) ? (target == gen::Target::kX86 ? 0x40000000ull : 0x0000200000000000ull) : Globals::kNoBaseAddress;
-    Subject s(target, kind, hm, known_base);
+    Subject s(target, kind, hm, known_base, plan.get("validate", 1) != 0);
     for (size_t i = 0; i < plan.ops.size(); i++) {
       const Op& op = plan.ops[i];
       sim::begin_op(op, i);
@@ -757,7 +765,7 @@ void execute(const Plan& plan) {
   sim::begin_op(Op(), plan.ops.size() + 1);
   std::string fresh_snapshot;
   {
-    Subject f(target, kind, kHandlerRecording, plan.get("known_base", 0) ? (target == gen::Target::kX86 ? 0x40000000ull : 0x0000200000000000ull) : Globals::kNoBaseAddress);
+    Subject f(target, kind, kHandlerRecording, plan.get("known_base", 0) ? (target == gen::Target::kX86 ? 0x40000000ull : 0x0000200000000000ull) : Globals::kNoBaseAddress, plan.get("validate", 1) != 0);
     for (size_t k = 0; k < succeeded.size(); k++) {
       size_t i = succeeded[k];
       bool must_fail = false;
@@ -841,6 +849,7 @@ Plan generate(uint64_t seed, bool thorough) {
   p.set("emitter", cfg.chance(2, 3) ? 0 : int64_t(1 + cfg.below(2)));
   p.set("handler", int64_t(cfg.below(kHandlerModeCount)));
   p.set("known_base", int64_t(cfg.chance(1, 3) ? 1 : 0));
+  p.set("validate", int64_t(cfg.chance(1, 2) ? 1 : 0));
   p.set("prog_seed", int64_t(cfg.next() & 0x7fffffffffffll));
   size_t steps = size_t(5 + cfg.below(thorough ? 60 : 30));
   p.set("prog_steps", int64_t(steps));
@@ -861,6 +870,7 @@ Plan generate(uint64_t seed, bool thorough) {
           op.a[1] = int64_t(r.next() & 0x7fffffffffffll);
           op.a[2] = r.chance(1, 6) ? 0 : int64_t(r.chance(1, 2) ? (1u << r.below(4)) : r.below(64));   // which operands are perturbed (0: the valid form itself)
           op.a[3] = r.chance(2, 3) ? 0 : int64_t(r.below(8));
+          if (r.chance(1, 10)) op.a[3] |= 16;  // a condition code is composed into the instruction id
           if (r.chance(1, 8)) op.a[3] |= 8;   // every arrangement operand switches between its 64-bit and 128-bit view
           p.ops.push_back(op);
           continue;
@@ -893,6 +903,7 @@ Plan generate(uint64_t seed, bool thorough) {
 
 void shrink(const Plan& p, std::vector<Plan>& out) {
   static const char* const zero_keys[] = {"junk", "realloc_move", "code_buffer", "handler", "emitter", "known_base"};
+  if (!p.get("validate", 1)) { Plan q = p; q.set("validate", 1); out.push_back(q); }
   for (const char* k : zero_keys) if (p.get(k)) { Plan q = p; q.set(k, 0); out.push_back(q); }
   // drop operands of calls one by one (not on AArch64, where the operand kinds of a form must be kept)
   for (size_t i = 0; i < p.ops.size(); i++) {
